@@ -188,6 +188,28 @@ static void hexto(hbuf *b, const unsigned char *p, size_t n)
   for (size_t i = 0; i < n; i++) { char c[2] = {d[p[i] >> 4], d[p[i] & 15]}; hbuf_add(b, c, 2); }
 }
 
+/* CPU seconds (user+system) the child has used so far, from /proc/<pid>/stat; 0 if unreadable */
+static double cpu_s(pid_t pid)
+{
+  char p[64], b[1024]; snprintf(p, sizeof p, "/proc/%ld/stat", (long)pid);
+  FILE *f = fopen(p, "r"); if (!f) return 0;
+  size_t k = fread(b, 1, sizeof b - 1, f); fclose(f); b[k] = 0;
+  char *q = strrchr(b, ')'); if (!q) return 0;
+  unsigned long ut = 0, stt = 0;
+  if (sscanf(q + 1, " %*c %*d %*d %*d %*d %*d %*u %*u %*u %*u %*u %lu %lu", &ut, &stt) != 2) return 0;
+  return (double)(ut + stt) / (double)sysconf(_SC_CLK_TCK);
+}
+/* has the child hung?  TIMEOUT_S of wall time without progress - but on an overloaded machine (load average well above
+ * the number of processors) a child that has hardly been given any CPU is starved, not hung: then wait up to 180 s. */
+static int expired(pid_t pid, double t0)
+{
+  double w = now_s() - t0, la[1];
+  if (w <= TIMEOUT_S) return 0;
+  long nc = sysconf(_SC_NPROCESSORS_ONLN);
+  if (w < 180.0 && getloadavg(la, 1) == 1 && la[0] > 1.5 * (double)(nc > 0 ? nc : 1) && cpu_s(pid) < TIMEOUT_S) return 0;
+  return 1;
+}
+
 static void run_case(int prog, int var, const unsigned char *in, size_t n)
 {
   static hbuf err, rec;
@@ -228,7 +250,7 @@ static void run_case(int prog, int var, const unsigned char *in, size_t n)
     if (oopen) { f[nf].fd = po[0]; f[nf].events = POLLIN; oi = nf++; }
     if (eopen) { f[nf].fd = pe[0]; f[nf].events = POLLIN; ei = nf++; }
     double left = t0 + TIMEOUT_S - now_s();
-    if (left <= 0) { timedout = 1; break; }
+    if (left <= 0) { if (expired(pid, t0)) { timedout = 1; break; } left = 1.0; }
     int r = poll(f, (nfds_t)nf, (int)(left * 1000) + 1);
     if (r < 0) { if (errno == EINTR) continue; die("poll"); }
     if (r == 0) continue;
@@ -259,7 +281,7 @@ static void run_case(int prog, int var, const unsigned char *in, size_t n)
       pid_t w = waitpid(pid, &st, WNOHANG);
       if (w == pid) break;
       if (w == -1 && errno != EINTR) die("waitpid");
-      if (now_s() > t0 + TIMEOUT_S) timedout = 1; else { usleep(100); continue; }
+      if (expired(pid, t0)) timedout = 1; else { usleep(100); continue; }
     }
     kill(-pid, SIGKILL); kill(pid, SIGKILL);
     while (waitpid(pid, &st, 0) == -1 && errno == EINTR) ;
